@@ -167,9 +167,17 @@ def _class_surface(repo: Repo, qual: str) -> Dict[str, Entry]:
     table: Dict[str, Entry] = {}
     for st in cls.body:
         if isinstance(st, (ast.FunctionDef, ast.AsyncFunctionDef)):
-            fw = _forwarding(st) or _forwarding_by_interpretation(repo, qual, st)
+            fw = _forwarding(st)
+            via = "def"
+            if not fw:
+                fw = _forwarding_by_interpretation(repo, qual, st)
+                # a body with conditions was classified on generic operands only: what its branches do for operands of a
+                # particular shape is decided by the rules that interpret it on representatives (C04.registry-names)
+                if fw and any(isinstance(n, (ast.If, ast.IfExp, ast.While, ast.Try, ast.BoolOp, ast.Match if hasattr(ast, "Match") else ast.If))
+                              for n in ast.walk(st)):
+                    via = "def:branching"
             if fw:
-                table[st.name] = Entry(st.name, "op", fw[0], fw[1], st, "def")
+                table[st.name] = Entry(st.name, "op", fw[0], fw[1], st, via)
             else:
                 table[st.name] = Entry(st.name, "python", node=st, via="def")
         elif isinstance(st, ast.Assign):
